@@ -6,6 +6,11 @@ from contracts import c02_remove_reactions as RR
 from contracts import c02_groups as GR
 from contracts import c02_remove_metabolites as RM
 from contracts import c02_rxn_add_metabolites as RAM
+from contracts import c02_add_reactions as AR
+from contracts import c02_remove_reactions_ctx as RRC
+from contracts import c12_rxn_arith as ARITH
+from contracts import c02_add_metabolites_ctx as AMC
+from contracts import c02_remove_metabolites_ctx as RMC
 from props._generic import run_property, replay_with_driver
 
 LEVEL = "other"
@@ -28,8 +33,9 @@ KEYS_RR = ["Model.remove_reactions"]
 def run(rep):
     run_property(rep, KEYS, more=[(RENAME_KEYS, c02_rename.HOOKS), (BOUNDARY_KEYS, c02_boundary.HOOKS), (KEYS_UG, U.HOOKS), (KEYS_AM, AM.HOOKS),
                                    (KEYS_RR, RR.HOOKS), (GR.KEYS, GR.HOOKS), (RM.KEYS, RM.HOOKS), (RAM.KEYS, RAM.HOOKS),
-                                   (RAM.KEYS_SUB, RAM.HOOKS_SUB)],
-                 lemmas=lambda: U.lemmas() + RAM.lemmas(), explanation=(
+                                   (RAM.KEYS_SUB, RAM.HOOKS_SUB), (AR.KEYS, AR.HOOKS), (RRC.KEYS, RRC.HOOKS),
+                                   (AMC.KEYS, AMC.HOOKS), (RMC.KEYS, RMC.HOOKS)] + list(ARITH.GROUPS),
+                 lemmas=lambda: U.lemmas() + RAM.lemmas() + RRC.lemmas() + ARITH.lemmas() + AMC.lemmas() + RMC.lemmas(), explanation=(
         "Deductive part: the clauses `identifiers are unique` and `every listed object is the one found by looking up its "
         "identifier` hold because every model edit changes model.reactions/metabolites/genes/groups only through the DictList "
         "operations listed here, each proved (C15 contracts, unbounded) to preserve the representation invariant and to produce "
@@ -127,13 +133,35 @@ def run(rep):
         "undo-restores:combine / :replace (the call followed by its registered undo call restores stoichiometry, reaction sets "
         "and solver rows). Not covered there: keys that belong to another model (copied), new metabolites inside a context, another "
         "object with the same identifier on a model-less reaction. "
+        "Model.add_reactions (no context open; argument lists, models and stoichiometries of any size; two nested loops under hand "
+        "invariants): the listed reactions whose identifier is unknown join model.reactions as its new tail in argument order (well "
+        "formed again) and point at the model, the others are ignored and untouched; every key of a joining reaction is afterwards THE "
+        "member of model.metabolites with that identifier, with the coefficient the entry key had (re-pointing), unknown metabolites "
+        "join through Model.add_metabolites (proved contract applied), every key lists the reaction, genes by the proved contract of "
+        "update_genes_from_gpr, exactly one _populate_solver(pruned) call in the exit state (recorded), two new reactions with one "
+        "identifier raise ValueError before anything changed; frame over all other reactions, reaction sets and groups. "
+        "Model.remove_reactions with a context open (remove_orphans=False): the final state as without a context plus the undo "
+        "registrations as a ghost trace - all in the innermost context, per listed reaction the block [objective coefficients,] "
+        "_populate_solver([r]), setattr(r, _model, model), reactions.add(r), one x._reaction.add(r) per metabolite / gene that listed "
+        "it, one g.add_members([r]) per group that contained it, nothing else and nothing twice; glue lemmas undo-restores (model "
+        "pointers, list content, back references, group members). Reaction arithmetic: __imul__ (in a model without / with context, "
+        "detached; every coefficient scaled, bounds swapped and negated iff coefficient < 0, one _populate_solver call, the two undo "
+        "registrations, lemma undo-restores; precondition inside a context: coefficient != 0), __iadd__ / __isub__ (exactly one "
+        "add_metabolites / subtract_metabolites call with the operand's dictionary and combine=True, the rule decision table, the "
+        "operand untouched; in a model without context the EFFECT through the proved add_metabolites contract), __mul__ / __add__ / "
+        "__sub__ (copies by the proved Reaction.copy contract, the in-place operator applied to the copy only, operands and every "
+        "existing object unchanged). "
+        "Model.add_metabolites and Model.remove_metabolites WITH a context open (lists and models of any size, any depth of the context stack; remove: a list or one metabolite, keeping the reactions or destructive): the final state exactly as their no-context contracts state it, plus the undo registrations as a ghost trace, all in the innermost context, nothing else and nothing twice - add: one x._reaction.update(S) per joining metabolite that lost back-references, S exactly the set taken out, then metabolites.__isub__(the joining metabolites), then setattr(x, _model, None) per joining metabolite, and nothing at all on the two early exits; remove: one g.add_members([x]) per (handled metabolite, group of the model that contained it), then metabolites.__iadd__(the handled metabolites), then setattr(x, _model, model) per handled metabolite; the constraint side is the recorded add_cons_vars / remove_cons_vars call whose own registration C03 proves, subtract_metabolites is called with the default reversibly, remove_from_model = remove_reactions in context; glue lemmas undo-restores (membership in model.metabolites as a set, back references resp. group members, model pointers - the last under the stated hypothesis that a joining metabolite had no model resp. a removed one pointed at the model). Stated preconditions: those of the no-context contracts, pairwise different items as a ghost inverse map, destructive list case: a reaction is not a listed metabolite; assumed at the call site: get_associated_groups returns no duplicates. "
         "The documented effect of each other public "
-        "editing operation on stoichiometry, gene sets, back-references and groups (add_reactions re-pointing, "
+        "editing operation on stoichiometry, gene sets, back-references and groups (add_reactions inside a context, "
         "remove_genes/rename_genes, merge), the parsing of the rule text and what the "
         "registered undo functions do when they run are NOT "
         "proved - those functions mix sympy/optlang calls, string parsing and nested loops outside the supported subset: bounded "
         "driver (histories compared step by step with an executable reference description + Inv_XRef after every step)."),
-        trusted=["CPython list/dict semantics as axiomatised", "copy.deepcopy returns a fresh detached object (assumed)",
+        trusted=["add_metabolites / remove_metabolites in a context: context(f) = HistoryManager.__call__ by its proved contract, recorded "
+                 "in a ghost trace; the list returned by Model.get_associated_groups has no duplicates (assumed consequence of its proved "
+                 "post-condition); the trace clauses are stated under a free Boolean gate (proved for both values)",
+                 "CPython list/dict semantics as axiomatised", "copy.deepcopy returns a fresh detached object (assumed)",
                  "reverse_id is a function of the current id; model.variables[...] finds the reaction's variables (assumed getters)",
                  "add_boundary: Reaction constructor stores id/name/bounds as given with an empty annotation dict; "
                  "find_external_compartment, Reaction.add_metabolites, Model.add_reactions abstract (ghost trace); f-strings as opaque "
